@@ -111,6 +111,31 @@ def cleanDir (t : Tree) (p : Path) : Res × Tree :=
   | some (.file _) => (.err .conflict, t)
   | none => (.ok, t)
 
+/-- run `f` over the names one after the other, stopping at the first error; `none` = no answer -/
+def foldNames (f : Tree → Name → Option (Res × Tree)) (ns : List Name) (init : Option (Res × Tree)) :
+    Option (Res × Tree) :=
+  ns.foldl (fun acc n =>
+    match acc with
+    | none => none
+    | some (.err e, ta) => some (.err e, ta)
+    | some (_, ta) => f ta n) init
+
+/-- make sure the place to copy to exists; the Bool says whether the destination is a directory -/
+def copyPrep (t : Tree) (srcDir : Bool) (dest : Path) (destSlash : Bool) : Res × Tree × Bool :=
+  if exists_ t dest then (.ok, t, isDir t dest)
+  else if srcDir || destSlash then ((mkdirAll t dest).1, (mkdirAll t dest).2, true)
+  else ((mkdirAll t (parent dest)).1, (mkdirAll t (parent dest)).2, false)
+
+/-- the path the source is copied to -/
+def copyDst (srcDir destExists destIsDir : Bool) (src dest : Path) : Path :=
+  if !(srcDir && !destExists) && destIsDir then dest ++ [src.getLast?.getD 0] else dest
+
+/-- copy of one regular file -/
+def copyFile (t : Tree) (src dst : Path) : Res × Tree :=
+  match lookup t src with
+  | some (.file c) => if isDir t dst then (.err .conflict, t) else (.ok, insert t dst (.file c))
+  | _ => (.err .other, t)
+
 /-- `Copy(src, dest)`; `destSlash`: the destination was written with a trailing separator.
     Recursion on the source subtree is bounded by `fuel`; `none` = fuel exhausted (the call does not
     return: the copy keeps feeding on what it creates). -/
@@ -120,33 +145,19 @@ def copy : Nat → Tree → Path → Path → Bool → Option (Res × Tree)
     if src = dest ∧ !destSlash then some (.ok, t)
     else if !exists_ t src then some (.err .notFound, t)
     else if isDir t src && under src dest && src ≠ dest then some (.err .invalid, t)   -- a directory into itself
+    else if destSlash && isFile t dest then some (.err .conflict, t)   -- `file/`: a file where a directory is needed
     else
-      let srcDir := isDir t src
-      let destExists := exists_ t dest
-      -- make sure the place to copy to exists
-      let prep : Res × Tree × Bool :=
-        if destExists then (.ok, t, isDir t dest)
-        else if srcDir || destSlash then let (r, t') := mkdirAll t dest; (r, t', true)
-        else let (r, t') := mkdirAll t (parent dest); (r, t', false)
-      match prep with
+      match copyPrep t (isDir t src) dest destSlash with
       | (.err e, t', _) => some (.err e, t')
       | (_, t1, destIsDir) =>
-        let dst := if !(srcDir && !destExists) && destIsDir then dest ++ [src.getLast?.getD 0] else dest
-        if srcDir then
+        let dst := copyDst (isDir t src) (exists_ t dest) destIsDir src dest
+        if isDir t src then
           match mkdirAll t1 dst with
           | (.err e, t2) => some (.err e, t2)
           | (_, t2) =>
             -- children of the source as listed NOW (after the destination directory was created)
-            (children t2 src).foldl (fun acc n =>
-              match acc with
-              | none => none
-              | some (.err e, ta) => some (.err e, ta)
-              | some (_, ta) => copy fuel ta (src ++ [n]) dst false) (some (.ok, t2))
-        else
-          match lookup t1 src with
-          | some (.file c) =>
-            if isDir t1 dst then some (.err .conflict, t1) else some (.ok, insert t1 dst (.file c))
-          | _ => some (.err .other, t1)
+            foldNames (fun ta n => copy fuel ta (src ++ [n]) dst false) (children t2 src) (some (.ok, t2))
+        else some (copyFile t1 src dst)
 
 /-- re-root the subtree at `src` to `dest` (a rename of a directory or file to a fresh name) -/
 def rename (t : Tree) (src dest : Path) : Tree :=
@@ -174,12 +185,7 @@ def move : Nat → Tree → Path → Path → Option (Res × Tree)
         | some .dir, some (.file _) => some (.err .conflict, t1)
         | some .dir, some .dir =>
           -- merge the children into the existing destination, then remove the source
-          let r : Option (Res × Tree) := (children t1 src).foldl (fun (acc : Option (Res × Tree)) n =>
-            match acc with
-            | none => none
-            | some (Res.err e, ta) => some (Res.err e, ta)
-            | some (_, ta) => move fuel ta (src ++ [n]) (dest ++ [n])) (some (Res.ok, t1))
-          match r with
+          match foldNames (fun ta n => move fuel ta (src ++ [n]) (dest ++ [n])) (children t1 src) (some (Res.ok, t1)) with
           | none => none
           | some (.err e, t2) => some (.err e, t2)
           | some (_, t2) => some (.ok, removeUnder t2 src)
@@ -190,6 +196,60 @@ def fileSize (t : Tree) (sizes : Nat → Nat) (p : Path) : Res :=
   | some (.file c) => .size (sizes c)
   | some .dir => .err .conflict
   | none => .err .notFound
+
+/-! ### programs -/
+
+inductive Op
+  | mkdir (p : Path) | touch (p : Path) | write (p : Path) (c : Nat) | read (p : Path)
+  | exists_ (p : Path) | isfile (p : Path) | isdir (p : Path) | isempty (p : Path)
+  | ls (p : Path) | lsr (p : Path) | rm (p : Path) | clean (p : Path)
+  | cp (s d : Path) (destSlash : Bool) | mv (s d : Path) | size (p : Path)
+  deriving Repr, DecidableEq, Inhabited
+
+/-- every path argument of a call -/
+def Op.paths : Op → List Path
+  | .mkdir p | .touch p | .write p _ | .read p | .exists_ p | .isfile p | .isdir p | .isempty p
+  | .ls p | .lsr p | .rm p | .clean p | .size p => [p]
+  | .cp s d _ | .mv s d => [s, d]
+
+/-- the destinations of a call: the only places it may alter (a move also removes its source) -/
+def Op.targets : Op → List Path
+  | .mkdir p | .touch p | .write p _ | .rm p | .clean p => [p]
+  | .cp _ d _ => [d]
+  | .mv s d => [s, d]
+  | _ => []
+
+/-- a path argument that goes THROUGH a regular file is a kind conflict (a file where a directory is needed) -/
+def throughFile (t : Tree) (p : Path) : Bool := (prefixes p).dropLast.any (isFile t)
+
+def fuelFor (t : Tree) : Nat := 4 * t.length + 16
+
+/-- one API call on the reference model; `none` = the call does not return -/
+def step (t : Tree) (op : Op) : Option (Res × Tree) :=
+  if op.paths.any (throughFile t) then some (.err .conflict, t) else
+  match op with
+  | .mkdir p => some (mkdirAll t p)
+  | .touch p => some (touch t p)
+  | .write p c => some (writeFile t p c)
+  | .read p => some (readFile t p, t)
+  | .exists_ p => some (.bool (exists_ t p), t)
+  | .isfile p => some (.bool (isFile t p), t)
+  | .isdir p => some (if exists_ t p then .bool (isDir t p) else .err .notFound, t)
+  | .isempty p => some (isEmpty t p, t)
+  | .ls p => some (ls t p, t)
+  | .lsr p => some (lsRecursive t p, t)
+  | .rm p => some (rm t p)
+  | .clean p => some (cleanDir t p)
+  | .cp s d sl => copy (fuelFor t) t s d sl
+  | .mv s d => move (fuelFor t) t s d
+  | .size p => some (fileSize t id p, t)
+
+/-- a program: the results so far (latest first) and the tree; stops at a call that does not return -/
+def run : Tree → List Op → Option Tree
+  | t, [] => some t
+  | t, op :: ops => match step t op with
+    | none => none
+    | some (_, t') => run t' ops
 
 /-- well-formedness: every entry has its parent directory, no entry for the root, keys unique -/
 def WF (t : Tree) : Prop :=
